@@ -41,6 +41,11 @@ CLAIMED = {
    note="Trusted: pool monitor (instance-level wrapper recording call sites), generator/evaluator of C05. Programs hold no user-level register handles; C05's recorded finding shapes are excluded.",
    technique="deterministic simulation: seeded long operation histories with drawn flush period + register-pool monitor with confirm-by-repetition",
    ref="§5 C14"),
+ "C09": dict(
+   text="Seeded exploration: qubit-lifecycle op sequences (new, gates, in-place/destructive measure, free, reset, create/recv keep plain | sequential+post routine | context, flushes) for budgets 1..5 on generic and NV hardware configs with and without the NV transpiler, run through the real SDK and controller with a one-sided fake link; no allocation fault may occur on the controller and after every completed flush the connection's active qubits must be exactly the controller's allocated virtual qubits.",
+   note="Trusted: live-qubit accounting of the generator (documented rules), one-sided link stub, trace memory. min_fidelity_all_at_end variants are not generated. Four recorded findings are masked in half of the runs (known_findings.json).",
+   technique="deterministic simulation: scheduler-owned flush placement, link answer times/ids + agreement oracle after every flush",
+   ref="§5 C09"),
 }
 
 PENDING = {p: 'check not built yet in this round (simulation target per DESIGN §5; will be claimed when its rig exists)' for p in ['C05','C06','C08','C09','C10','C11','C12','C13','C14','C18','C20']}
